@@ -262,7 +262,7 @@ def run(ctx):
 
 
 def replay(ctx, rp):
-    case = rp.get('case') or {}
+    case = rp.get('case') or ({'reactor': rp['reactor'], 'bufsize': rp['bufsize'], 'progs': rp['progs']} if 'progs' in rp else {})   # replay file or corpus file
     if 'progs' not in case:
         print('nothing to replay: %s' % rp.get('theorem'))
         return 1
